@@ -137,7 +137,11 @@ def check(spec, ctx):
             graph.edges[(key[pos], key[pos + 1])]["tag"] = lab
             edge_labels[frozenset((pos + 1, pos + 2))] = lab
         if spec["circular"]:
-            graph.add_edge(key[0], key[n - 1], linktype="circle")
+            # the ring is a matter of topology: the closing edge may carry the parser's label, none, or another one
+            closing = [{"linktype": "circle"}, {}, {"tag": "E"}][(spec["rng"] // 7) % 3]
+            graph.add_edge(key[0], key[n - 1], **closing)
+            if "linktype" not in closing:
+                ctx.label("ring_without_circle_label")
         if off:
             ctx.label("offset_node_keys")
         if spec.get("idmap"):
@@ -272,6 +276,7 @@ def check_gen_params(spec, ctx, names):
                            {"id": key[i], "resname": names[i], "resid": i + 1}) for i in listing],
                 "edges": [{"source": key[i], "target": key[i + 1]} for i in range(nn - 1)]}
         if spec["circular"]:
+            # (the closing link of the test force field asks for this label)
             data["edges"].append({"source": key[0], "target": key[nn - 1], "linktype": "circle"})
         seq_path = ctx.dir / "seq.json"
         seq_path.write_text(json.dumps(data))
